@@ -1460,8 +1460,39 @@ Definition mem (s : string) (l : list string) : bool := existsb (String.eqb s) l
    The formatter's text must be the canonical text (then the round trip must succeed: binding `ok`), or — inside a
    defect class — exactly the text the model of formatter.rs predicts (then a failed round trip is the known finding).
    Accepting the canonical text also inside the classes keeps the check valid once formatter.rs is repaired. *)
+(* a second lexical clash of the real grammar, outside the model grammar: rows of a table literal are printed on one
+   line separated by ` | `; a row after the first that begins with a variable followed by an expression that starts
+   with a colon (an atom `:red`, a tuple-struct `:a(1)`) then reads `| b :red |`, which structures.rs::record accepts
+   as the pipe-delimited record `|b: red|` (binding := identifier, kind?, whitespace*, ":", expression) *)
+Fixpoint starts_colon (e : ex) : bool :=
+  match e with
+  | ELit (LAtom _) _ => true
+  | ETupS _ _ => true
+  | ETrans e => starts_colon e
+  | ETerm l _ => starts_colon l
+  | ERange a _ _ _ => starts_colon a
+  | _ => false
+  end.
+
+Definition row_binding (row : list ex) : bool :=
+  match row with
+  | EVar _ _ :: c :: _ => starts_colon c
+  | _ => false
+  end.
+
+Definition rhs_rowbinding (r : rhs) : bool :=
+  match r with RTable _ (_ :: rows) => existsb row_binding rows | _ => false end.
+
+Definition c_rowbinding (p : prog) : bool :=
+  existsb (fun s => match s with
+                    | SDefine _ _ _ r | SAssign _ _ r | SOpAssign _ _ _ r | SExpr r => rhs_rowbinding r
+                    | _ => false
+                    end) p.
+
 Definition lex_class_of (p : prog) : option string :=
-  if exists_prog c_commaswizzle p then Some "comma-swizzle" else None.
+  if exists_prog c_commaswizzle p then Some "comma-swizzle"
+  else if c_rowbinding p then Some "table-row-reads-as-record"
+  else None.
 
 Definition judge_prog (p : prog) (o : obs8) : sx :=
   let ti := fmt_prog true p in
@@ -1525,23 +1556,25 @@ Definition diff_classes : list (string * list string * list string) :=
     ("md-inline-code-escape", ["inline-code-special"], ["perr"; "tree"; "idem"]);
     ("comma-swizzle", ["comma-swizzle"], ["tree"; "perr"]) ].
 
-Definition find_class (classes : list (string * list string * list string)) (feat : list string) (sym : string) : option string :=
-  match filter (fun c => existsb (fun f => mem f feat) (snd (fst c)) && mem sym (snd c)) classes with
-  | c :: _ => Some (fst (fst c))
-  | [] => None
-  end.
+(* every class whose features and symptom match: a document can combine elements of several classes and only the
+   symptom says that one of them failed, not which; the driver accepts the verdict when one of the ids is listed *)
+Definition find_class (classes : list (string * list string * list string)) (feat : list string) (sym : string) : list string :=
+  map (fun c => fst (fst c))
+      (filter (fun c => existsb (fun f => mem f feat) (snd (fst c)) && mem sym (snd c)) classes).
+
+Definition v_kfs (ids : list string) : sx := Lx (Ax "kf" :: map Ax ids).
 
 Definition judge_diff (classes : list (string * list string * list string)) (o : obs8) : sx :=
   match o with
   | O8Skip => v_adv "source-does-not-parse"
   | O8Other => v_bad "unreadable-observation" (Ax "fmt")
   | O8FmtPanic feat =>
-      match find_class classes feat "fmtpanic" with Some id => v_kf id | None => v_bad "format-panic" (Ax "text") end
+      match find_class classes feat "fmtpanic" with (_ :: _) as ids => v_kfs ids | [] => v_bad "format-panic" (Ax "text") end
   | O8Fmt ob =>
       if all_good ob then v_ok "diff"
       else match find_class classes (o_feat ob) (symptom ob) with
-           | Some id => v_kf id
-           | None => v_bad "roundtrip-failed" (Qx (symptom ob))
+           | (_ :: _) as ids => v_kfs ids
+           | [] => v_bad "roundtrip-failed" (Qx (symptom ob))
            end
   end.
 
